@@ -86,7 +86,7 @@ Fixpoint data_lines (widths : list (str * Q)) (fonts : omat Z) (sizes : omat Q) 
         let prev := match width_idx with O => 0 # 1 | S k => nth k cw (0 # 1) end in
         do font <- cell_font fonts row_idx width_idx;
         do size <- cell_size sizes row_idx width_idx;
-        do tw <- width_at widths (py_str v) font size;
+        do tw <- width_at widths (display v) font size;     (* a null is measured as the empty cell it renders as *)
         data_lines widths fonts sizes row_idx removed cw rest (S col_idx) (S width_idx)
                    (Z.max acc (lines_needed tw (cur - prev)))
       end
